@@ -325,4 +325,69 @@ theorem mmDotStmts_nodup {all : List MCls} {base : List Str} {ss : List Stmt}
         hlinks, List.append_nil, e, List.append_nil]
       exact h1
 
+/-! ### the ends of the link / inheritance edges are classes of the table -/
+
+/-- the node ids an edge statement of the metamodel export connects -/
+def Stmt.ends : Stmt → List Nat
+  | .link s d _ _ => [s, d]
+  | .inh b s => [b, s]
+  | _ => []
+
+def mmEdgeEnds (ss : List Stmt) : List Nat := ss.flatMap Stmt.ends
+
+theorem dotItem_ends {all : List MCls} {it : MItem} (hin : ItemIn all it)
+    (hcl : ∀ c ∈ all, ∀ a ∈ c.attrs, (findCls all a.clsId).isSome) {s : Stmt} (hs : s ∈ dotItem it) :
+    ∀ i ∈ s.ends, ∃ c ∈ all, c.id = i := by
+  cases it with
+  | cls c =>
+    simp only [dotItem] at hs
+    split at hs
+    · simp at hs
+    · simp only [List.mem_singleton] at hs; subst hs; simp [Stmt.ends]
+  | blank => simp only [dotItem, List.mem_singleton] at hs; subst hs; simp [Stmt.ends]
+  | link c a =>
+    simp only [dotItem, List.mem_singleton] at hs; subst hs
+    intro i hi
+    simp only [Stmt.ends, List.mem_cons, List.not_mem_nil, or_false] at hi
+    rcases hi with rfl | rfl
+    · exact ⟨c, hin.1, rfl⟩
+    · exact findCls_isSome_iff.mp (hcl c hin.1 a hin.2)
+  | inh b s' =>
+    simp only [dotItem, List.mem_singleton] at hs; subst hs
+    intro i hi
+    simp only [Stmt.ends, List.mem_cons, List.not_mem_nil, or_false] at hi
+    rcases hi with rfl | rfl
+    · exact ⟨b, hin.1, rfl⟩
+    · exact ⟨s', hin.2, rfl⟩
+
+theorem mmDotStmts_ends {all : List MCls} {base : List Str} {ss : List Stmt} (hs : mmDotStmts all base = some ss)
+    (hcl : ∀ c ∈ all, ∀ a ∈ c.attrs, (findCls all a.clsId).isSome) :
+    ∀ i ∈ mmEdgeEnds ss, ∃ c ∈ all, c.id = i := by
+  unfold mmDotStmts at hs
+  cases hi : mmItems all (base ++ [cl!"OBJECT"]) with
+  | none => simp [hi] at hs
+  | some items =>
+    simp only [hi, Option.some.injEq] at hs
+    obtain ⟨hin, _⟩ := mmItems_in all _ items hi
+    intro i hi'
+    obtain ⟨s, hs', hsi⟩ := List.mem_flatMap.mp hi'
+    rw [← hs] at hs'
+    rcases List.mem_append.mp hs' with h1 | h1
+    · obtain ⟨it, hit, hsit⟩ := List.mem_flatMap.mp h1
+      exact dotItem_ends (hin it hit) hcl hsit i hsi
+    · split at h1
+      · simp at h1
+      · simp only [List.mem_singleton] at h1; subst h1; simp [Stmt.ends] at hsi
+
+theorem noOuterClass_of_B {all : List MCls} {allNames : List Str} (h : noOuterClassB all allNames = true) :
+    NoOuterClass all allNames := by
+  intro c hc a ha d hf hd
+  have h1 := List.all_eq_true.mp h c hc
+  have h2 := List.all_eq_true.mp h1 a ha
+  simp only [hf, Bool.or_eq_true, Bool.not_eq_true', decide_eq_true_eq] at h2
+  rcases h2 with h2 | h2
+  · have : allNames.contains d.fqn = true := by simpa using hd
+    rw [this] at h2; cases h2
+  · exact h2
+
 end Dot
